@@ -27,6 +27,20 @@ GOENV = {
 }
 
 
+def adaptive_workers():
+    """TLC worker count: all cores on an idle machine, fewer when the machine is already oversubscribed
+    (results do not depend on the worker count; edge dumps always use 1)."""
+    if os.environ.get("VERIF_TLC_WORKERS"):
+        return max(1, int(os.environ["VERIF_TLC_WORKERS"]))
+    try:
+        load = os.getloadavg()[0]
+    except OSError:
+        load = 0.0
+    if load <= NCPU / 2:
+        return NCPU
+    return max(2, min(NCPU, int(NCPU * NCPU / (2 * load))))
+
+
 class Inconclusive(Exception):
     pass
 
@@ -96,8 +110,8 @@ class Ctx:
                     if s2 != s:
                         open(p, "w").write(s2)
         if workers is None:
-            workers = 1 if want_edges else NCPU
-        cmd = ["java", "-XX:+UseParallelGC", "-Xss256m"]
+            workers = 1 if want_edges else adaptive_workers()
+        cmd = ["java", "-XX:+UseParallelGC", "-XX:ParallelGCThreads=%d" % max(2, min(8, workers)), "-Xss256m"]
         if heap:
             cmd.append("-Xmx" + heap)
         if deque:
